@@ -51,6 +51,9 @@ func (s *ServerLedActivationToken) Store(ctx context.Context, storage nodeenroll
 	tokenToStore := s
 	if opts.WithStorageWrapper != nil {
 		tokenToStore = proto.Clone(s).(*ServerLedActivationToken)
+		// Only the sealed copy below is read back on load; do not leave the
+		// creation time in the clear next to it
+		tokenToStore.CreationTime = nil
 
 		keyId, err := opts.WithStorageWrapper.KeyId(ctx)
 		if err != nil {
